@@ -376,6 +376,7 @@ func rnStrip(w *World) {
 	rnTraversal(w, traversalSpec{name: "strip-source-retention", rel: "options", roots: []string{"StripSourceRetentionOptionsFromFile"}, fileSuffix: "source_retention_options.go"})
 	rnStripDetails(w)
 	rnStripUnchangedReturn(w)
+	rnStripUnknownPreserved(w)
 }
 
 // rnStripDetails: C22-specific structural clauses.
@@ -387,28 +388,159 @@ func rnStripDetails(w *World) {
 		return
 	}
 	info := p.TypesInfo
-	// (1) any depth: the per-field filter must look inside message-valued fields
-	recurses := false
-	ast.Inspect(strip.Decl.Body, func(x ast.Node) bool {
-		if c, ok := x.(*ast.CallExpr); ok {
-			if s, ok := ast.Unparen(c.Fun).(*ast.SelectorExpr); ok {
-				switch s.Sel.Name {
-				case "Message", "List", "Map":
-					if tv, ok := info.Types[s.X]; ok && strings.HasSuffix(tv.Type.String(), "protoreflect.Value") {
-						recurses = true
+	// (1) any depth: the function that tests a field's retention must, for a field it keeps, look
+	// inside message-valued values: it calls itself (or the top-level filter) on Value.Message() of
+	// a singular field and of list elements. Functions testing retention are found by resolved
+	// callee ((*descriptorpb.FieldOptions).GetRetention), not by name.
+	var filters []bodyRef
+	for _, b := range allFuncBodies(p) {
+		if b.Lit != nil || !strings.HasSuffix(w.Fset.Position(b.Decl.Pos()).Filename, "source_retention_options.go") {
+			continue
+		}
+		has := false
+		ast.Inspect(b.Body, func(x ast.Node) bool {
+			if c, ok := x.(*ast.CallExpr); ok {
+				if f := callee(info, c); f != nil && f.Name() == "GetRetention" && f.Pkg() != nil && strings.HasSuffix(f.Pkg().Path(), "descriptorpb") {
+					has = true
+				}
+			}
+			return true
+		})
+		if has {
+			filters = append(filters, b)
+		}
+	}
+	w.floor("functions testing field retention", len(filters), 1)
+	for _, b := range filters {
+		self := info.Defs[b.Decl.Name]
+		nSingular, nList, nMap := 0, 0, 0
+		ast.Inspect(b.Body, func(x ast.Node) bool {
+			c, ok := x.(*ast.CallExpr)
+			if !ok {
+				return true
+			}
+			f := callee(info, c)
+			if f == nil || (f.Origin() != self && f.Origin() != strip.Obj) || len(c.Args) == 0 {
+				return true
+			}
+			// classify the message argument: v.Message() | list.Get(i).Message() | map value
+			arg := render(c.Args[0])
+			if !strings.Contains(arg, ".Message()") {
+				return true
+			}
+			switch {
+			case strings.Contains(arg, ".Get("):
+				nList++
+			default:
+				// inside a Map().Range callback?  decided by the enclosing literal's first parameter type
+				inMap := false
+				ast.Inspect(b.Body, func(y ast.Node) bool {
+					if fl, ok := y.(*ast.FuncLit); ok && fl.Pos() <= c.Pos() && c.End() <= fl.End() && fl.Type.Params != nil && len(fl.Type.Params.List) > 0 {
+						if tv, ok := info.Types[fl.Type.Params.List[0].Type]; ok && strings.HasSuffix(tv.Type.String(), "protoreflect.MapKey") {
+							inMap = true
+						}
+					}
+					return true
+				})
+				if inMap {
+					nMap++
+				} else {
+					nSingular++
+				}
+			}
+			return true
+		})
+		key := "any-depth|" + b.Label
+		if b.Decl.Name.Name == "stripSourceRetentionOptions" || (nSingular == 0 && nList == 0 && nMap == 0) {
+			key = "any-depth|stripSourceRetentionOptions" // stable key of the original finding
+		}
+		switch {
+		case nSingular > 0 && nList > 0 && nMap > 0:
+			w.ok(key, b.Decl.Pos(), fmt.Sprintf("the retention filter %s recurses into singular (%d), repeated (%d) and map-valued (%d) message fields", b.Label, nSingular, nList, nMap))
+		case nSingular == 0 && nList == 0 && nMap == 0:
+			w.violation(key, b.Decl.Pos(), "the option filter only tests the retention of the top-level fields of the options message and never descends into message-valued fields (no recursive call on Value.Message()): a source-retention field nested inside an option message is kept")
+		default:
+			w.violation(key+"|partial", b.Decl.Pos(), fmt.Sprintf("the retention filter recurses into singular=%d repeated=%d map=%d message-valued fields: a source-retention field nested in the missing shape is kept", nSingular, nList, nMap))
+		}
+		// (1b) protoreflect mutators are applied only to fresh values: the receiver of Set / Clear /
+		// Mutable / Append / Truncate / SetUnknown is a local whose every assignment is rooted at a
+		// Message.New() call (or New() itself); anything reached from the input (msg, val, list.Get)
+		// would modify the caller's descriptor in place.
+		fresh := func(e ast.Expr) bool {
+			ok := false
+			ast.Inspect(e, func(y ast.Node) bool {
+				if c, isC := y.(*ast.CallExpr); isC {
+					if s, isS := ast.Unparen(c.Fun).(*ast.SelectorExpr); isS && (s.Sel.Name == "New" || s.Sel.Name == "NewField") && len(c.Args) <= 1 {
+						ok = true
+					}
+				}
+				return true
+			})
+			return ok
+		}
+		assigns := map[types.Object][]ast.Expr{}
+		ast.Inspect(b.Body, func(y ast.Node) bool {
+			if as, ok := y.(*ast.AssignStmt); ok && len(as.Lhs) == len(as.Rhs) {
+				for i, l := range as.Lhs {
+					if id, ok := l.(*ast.Ident); ok {
+						obj := info.Defs[id]
+						if obj == nil {
+							obj = info.Uses[id]
+						}
+						if obj != nil {
+							assigns[obj] = append(assigns[obj], as.Rhs[i])
+						}
 					}
 				}
 			}
-			if f := callee(info, c); f != nil && f.Origin() == strip.Obj {
-				recurses = true
+			return true
+		})
+		nMut := 0
+		ast.Inspect(b.Body, func(y ast.Node) bool {
+			c, ok := y.(*ast.CallExpr)
+			if !ok {
+				return true
 			}
-		}
-		return true
-	})
-	if recurses {
-		w.ok("any-depth|stripSourceRetentionOptions", strip.Decl.Pos(), "the option filter descends into message-valued option fields")
-	} else {
-		w.violation("any-depth|stripSourceRetentionOptions", strip.Decl.Pos(), "the option filter only tests the retention of the top-level fields of the options message and never descends into message-valued fields (no Value.Message()/List()/Map() use, no recursion): a source-retention field nested inside an option message is kept")
+			s, ok := ast.Unparen(c.Fun).(*ast.SelectorExpr)
+			if !ok {
+				return true
+			}
+			switch s.Sel.Name {
+			case "Set", "Clear", "Mutable", "Append", "Truncate", "SetUnknown", "AppendMutable":
+			default:
+				return true
+			}
+			tv, ok := info.Types[s.X]
+			if !ok || !strings.Contains(tv.Type.String(), "protoreflect.") {
+				return true
+			}
+			nMut++
+			k := "fresh-receiver|" + b.Label + "|" + render(s.X) + "." + s.Sel.Name
+			recv := ast.Unparen(s.X)
+			if fresh(recv) {
+				w.ok(k, c.Pos(), "mutator applied to a value created by New() in the same expression")
+				return true
+			}
+			id, isId := recv.(*ast.Ident)
+			if !isId {
+				w.violation(k, c.Pos(), "protoreflect mutator "+s.Sel.Name+" applied to "+render(s.X)+", which is reached from the input message: stripping must not modify its input")
+				return true
+			}
+			rhs := assigns[info.Uses[id]]
+			good := len(rhs) > 0
+			for _, r := range rhs {
+				if !fresh(r) {
+					good = false
+				}
+			}
+			if good {
+				w.ok(k, c.Pos(), fmt.Sprintf("receiver %s is only ever assigned values rooted at New() (%d assignment(s))", id.Name, len(rhs)))
+			} else {
+				w.violation(k, c.Pos(), "protoreflect mutator "+s.Sel.Name+" applied to "+id.Name+", which is not (only) assigned fresh New() values in this function: it may alias the input message")
+			}
+			return true
+		})
+		w.floor("protoreflect mutator calls in "+b.Label, nMut, 1)
 	}
 	// (2) never modifies its input: in source_retention_options.go no assignment goes through a parameter
 	nAssign := 0
@@ -448,7 +580,7 @@ func rnStripDetails(w *World) {
 					continue // plain variable assignment
 				}
 				nAssign++
-				if obj := info.Uses[id]; obj != nil && params[obj] {
+				if obj := info.Uses[id]; obj != nil && params[obj] && carriesDescriptor(obj.Type()) {
 					// writing through a pointer/slice parameter mutates the caller's descriptor
 					if _, isPtr := obj.Type().Underlying().(*types.Pointer); isPtr {
 						w.violation("no-input-mutation|"+b.Label+"|"+render(l), l.Pos(), "assignment through parameter "+id.Name+": StripSourceRetentionOptions must not modify the descriptor it is given")
@@ -803,4 +935,127 @@ func partName(e ast.Expr) string {
 		}
 	}
 	return render(e)
+}
+
+// carriesDescriptor reports whether a parameter type can reach the caller's descriptor: a type
+// parameter, a protoreflect interface, or a pointer/slice (of pointers) to a descriptorpb struct.
+// Out-parameters of plain bookkeeping types (e.g. *[]sourcePath) cannot.
+func carriesDescriptor(t types.Type) bool {
+	switch u := t.(type) {
+	case *types.TypeParam:
+		return true
+	case *types.Pointer:
+		return carriesDescriptor(u.Elem())
+	case *types.Slice:
+		return carriesDescriptor(u.Elem())
+	case *types.Named:
+		if u.Obj().Pkg() != nil {
+			pp := u.Obj().Pkg().Path()
+			if strings.HasSuffix(pp, "descriptorpb") || strings.HasSuffix(pp, "protoreflect") || strings.HasSuffix(pp, "/proto") {
+				return true
+			}
+		}
+		if sl, ok := u.Underlying().(*types.Slice); ok {
+			return carriesDescriptor(sl.Elem())
+		}
+		if pt, ok := u.Underlying().(*types.Pointer); ok {
+			return carriesDescriptor(pt.Elem())
+		}
+	}
+	return false
+}
+
+// rnStripUnknownPreserved (RN6): "leaves every other field unchanged" includes the fields the Go
+// runtime does not recognise (unknown fields: custom options read without their extension, fields
+// of a newer descriptor.proto). Every copy built in source_retention_options.go by
+// `L := X.New()` (X a protoreflect.Message) followed by Range/Set must also carry the unknown
+// bytes across — a call L.SetUnknown(X.GetUnknown()) in the same function — and the decision to
+// drop a whole options message ("nothing left to keep", return of the zero value with a nil error)
+// must look at the unknown bytes too.
+func rnStripUnknownPreserved(w *World) {
+	w.rule("RN6")
+	p := w.pkg("options")
+	strip := w.fn("options", "stripSourceRetentionOptions")
+	if p == nil || strip == nil {
+		return
+	}
+	info := p.TypesInfo
+	isReflMsg := func(e ast.Expr) bool {
+		tv, ok := info.Types[e]
+		return ok && strings.HasSuffix(tv.Type.String(), "protoreflect.Message")
+	}
+	n := 0
+	for _, b := range allFuncBodies(p) {
+		if b.Lit != nil || !strings.HasSuffix(w.Fset.Position(b.Decl.Pos()).Filename, "source_retention_options.go") {
+			continue
+		}
+		ast.Inspect(b.Body, func(x ast.Node) bool {
+			as, ok := x.(*ast.AssignStmt)
+			if !ok || len(as.Lhs) != 1 || len(as.Rhs) != 1 {
+				return true
+			}
+			c, ok := ast.Unparen(as.Rhs[0]).(*ast.CallExpr)
+			if !ok || len(c.Args) != 0 {
+				return true
+			}
+			sel, ok := ast.Unparen(c.Fun).(*ast.SelectorExpr)
+			if !ok || sel.Sel.Name != "New" || !isReflMsg(sel.X) {
+				return true
+			}
+			lid, ok := as.Lhs[0].(*ast.Ident)
+			if !ok {
+				return true
+			}
+			n++
+			src := render(sel.X)
+			key := "unknown-preserved|" + b.Label + "|" + lid.Name
+			found := false
+			ast.Inspect(b.Body, func(y ast.Node) bool {
+				cc, ok := y.(*ast.CallExpr)
+				if !ok || len(cc.Args) != 1 {
+					return true
+				}
+				s2, ok := ast.Unparen(cc.Fun).(*ast.SelectorExpr)
+				if !ok || s2.Sel.Name != "SetUnknown" || render(s2.X) != lid.Name {
+					return true
+				}
+				if render(cc.Args[0]) == src+".GetUnknown()" {
+					found = true
+				}
+				return true
+			})
+			if found {
+				w.ok(key, as.Pos(), "the copy "+lid.Name+" of "+src+" also receives "+src+"'s unknown fields")
+			} else {
+				w.violation(key, as.Pos(), "the copy "+lid.Name+" := "+src+".New() is filled from "+src+".Range only: unknown fields of the input (unrecognised options, fields of a newer descriptor.proto) are silently dropped, so stripping does not leave every other field unchanged")
+			}
+			return true
+		})
+	}
+	w.floor("message copies built by New() in source_retention_options.go", n, 2)
+	// the whole-message drop must consider unknown bytes
+	nDrop := 0
+	ast.Inspect(strip.Decl.Body, func(x ast.Node) bool {
+		ifs, ok := x.(*ast.IfStmt)
+		if !ok {
+			return true
+		}
+		drops := false
+		for _, st := range ifs.Body.List {
+			if r, ok := st.(*ast.ReturnStmt); ok && len(r.Results) == 2 && render(r.Results[0]) == "zero" && isNilIdent(info, r.Results[1]) {
+				drops = true
+			}
+		}
+		if !drops {
+			return true
+		}
+		nDrop++
+		if strings.Contains(render(ifs.Cond), "GetUnknown()") {
+			w.ok("drop-considers-unknown|stripSourceRetentionOptions", ifs.Pos(), "the options message is dropped entirely only when no unknown bytes remain either")
+		} else {
+			w.violation("drop-considers-unknown|stripSourceRetentionOptions", ifs.Pos(), "the options message is replaced by nil when no *known* field remains ("+render(ifs.Cond)+"): unrecognised options stored as unknown fields are dropped with it")
+		}
+		return true
+	})
+	w.floor("whole-message drop sites in stripSourceRetentionOptions", nDrop, 1)
 }
